@@ -987,6 +987,35 @@ Section Readers.
     end.
   Definition sdf_read (file : list str) : list (A * list (str * str)) * outcome := sdf_iter (S (length file)) file.
 
+  (* MDLRead.__getitem__(slice) with step 1 on an indexable reader: seek(start), then stop - start read ATTEMPTS (not: until
+     stop - start records were collected); EOFError ends the loop, ValueError is skipped (IndexError is NOT caught here), anything
+     else propagates (then there is no result).  SDFRead.reset_index: grep -bE '\$\$\$\$' : one index entry after every line that
+     CONTAINS "$$$$", the last one dropped, entry 0 = start of the file *)
+  Definition has_delim (l : str) : bool := contains (L "$$$$") l.
+  Fixpoint sdf_seek (file : list str) (k : nat) : list str :=
+    match k, file with
+    | O, _ => file
+    | _, [] => []
+    | S k', l :: r => if has_delim l then sdf_seek r k' else sdf_seek r k
+    end.
+  Definition sdf_index_len (file : list str) : nat := length (filter has_delim file).
+  Fixpoint sdf_take (n : nat) (file : list str) : list (A * list (str * str)) * outcome :=
+    match n with
+    | O => ([], Exhausted)
+    | S k =>
+      match sdf_read_structure file with
+      | (inl x, rest) => let '(l, o) := sdf_take k rest in (x :: l, o)
+      | (inr EOFError, _) => ([], Exhausted)
+      | (inr (Py e), rest) => if is_value_error e then sdf_take k rest else ([], Crashed (Py e))
+      | (inr e, _) => ([], Crashed e)
+      end
+    end.
+  (* slice.indices for 0 <= i, 0 <= j *)
+  Definition sdf_getslice (i j : nat) (file : list str) : list (A * list (str * str)) * outcome :=
+    let n := sdf_index_len file in
+    let a := Nat.min i n in let b := Nat.min j n in
+    if Nat.leb b a then ([], Exhausted) else sdf_take (b - a) (sdf_seek file a).
+
   (* RDFRead._read_block(current=False); tell = number of records read so far.
      (None = BufferOverflow | Some (buffer, m_start), rest) *)
   Definition is_fmt (line : str) : bool := startswith (L "$RFMT") line || startswith (L "$MFMT") line.
@@ -1042,6 +1071,31 @@ Section Readers.
       end
     end.
   Definition rdf_read (file : list str) : list (A * list (str * str)) * outcome := rdf_iter (S (length file)) 0 file.
+
+  (* RDFRead.reset_index: grep -bE '^\$[RM]FMT': one entry AT every format line, entry 0 forced to the start of the file;
+     seek(k) also sets tell = k *)
+  Fixpoint rdf_seek_fmt (file : list str) (k : nat) : list str :=
+    match file with
+    | [] => []
+    | l :: r => if is_fmt l then match k with O => file | S k' => rdf_seek_fmt r k' end else rdf_seek_fmt r k
+    end.
+  Definition rdf_seek (file : list str) (k : nat) : list str := match k with O => file | _ => rdf_seek_fmt file k end.
+  Definition rdf_index_len (file : list str) : nat := length (filter is_fmt file).
+  Fixpoint rdf_take (n tell : nat) (file : list str) : list (A * list (str * str)) * outcome :=
+    match n with
+    | O => ([], Exhausted)
+    | S k =>
+      match rdf_read_structure tell file with
+      | (inl x, rest) => let '(l, o) := rdf_take k (S tell) rest in (x :: l, o)
+      | (inr EOFError, _) => ([], Exhausted)
+      | (inr (Py e), rest) => if is_value_error e then rdf_take k (S tell) rest else ([], Crashed (Py e))
+      | (inr e, _) => ([], Crashed e)
+      end
+    end.
+  Definition rdf_getslice (i j : nat) (file : list str) : list (A * list (str * str)) * outcome :=
+    let n := rdf_index_len file in
+    let a := Nat.min i n in let b := Nat.min j n in
+    if Nat.leb b a then ([], Exhausted) else rdf_take (b - a) a (rdf_seek file a).
 End Readers.
 
 (* ------------------------------------------------------------------------------------------------ *)
